@@ -1,5 +1,6 @@
 CFG = P(
     "c10",
+    pregen=["python3", "lib/rs2lean_cache.py"],
     partial=[
         "byte budget: the full statement (cached bytes <= max_memory_bytes) is false of the tree (finding mem-bytes-bound, Lean counter-witness mem_bytes_bound_counterexample); what is proved instead is that memory_usage is exactly the sum of the stored sizes",
         "size()/stats() = retrievable: false while ended-TTL entries wait to be swept (findings mem-size-unswept-expired, disk-size-unswept-expired) and on a re-created disk instance (finding disk-size-partial-index); proved: size = retrievable + unswept (memory), counters = index (disk, all histories)",
